@@ -71,6 +71,11 @@ SegNodes(e) == UNION {{SubAt(e, p).g[i] : i \in 1..Len(SubAt(e, p).g)} : p \in {
 SegMaps(e) == {<<<<sg, [sg EXCEPT !.n = sg.n \o "_b"]>>>> : sg \in {x \in SegNodes(e) : x.k = "id"}}
 IdNodes(e) == {SubAt(e, p) : p \in {p \in Paths(e) : SubAt(e, p).k = "id"}}
 IdMaps(e) == UNION {{<<<<x, img>>>> : img \in IdImages(x.w) \ {x}} : x \in IdNodes(e)}
+\* two-key maps in which the image of one key is another key (a renaming chain x -> y, y -> img; a swap x -> y, y -> x):
+\* substitution is simultaneous, the image of x is not looked up again
+ChainMaps(e) == LET ids == IdNodes(e)
+                    pairs == {p \in ids \X ids : p[1] # p[2] /\ p[1].w = p[2].w}
+                IN UNION {{<<<<p[1], p[2]>>, <<p[2], img>>>> : img \in (IdImages(p[2].w) \cup {p[1]}) \ {p[2]}} : p \in pairs}
 
 \* ---- wildcard patterns ----
 Wild(w, i) == [k |-> "id", w |-> w, n |-> "jok" \o ToString(i)]
